@@ -178,6 +178,13 @@ func runUpstreamFamily(s *Sim, prop string) {
 				for i := range sizes {
 					sizes[i] = payloadSizes[t.Choose("w-size", len(payloadSizes))]
 				}
+				if prop == "C20" && n > 0 && t.Bool("w-then-flush", 1, 6) {
+					// the same goroutine flushes as soon as its write has returned (while other goroutines
+					// may be flushing too): when its Flush returns nil, its own points have been cut
+					s.Start(ti, y.writeFlushOp(h, ti, id, sizes))
+					s.Stat("env.write-then-flush-by-one-goroutine")
+					return
+				}
 				op := y.writeOp(h, ti, id, sizes)
 				if cancelWrites && t.Bool("w-cancelable", 1, 4) {
 					op.CtxKind = "cancel"
